@@ -895,7 +895,7 @@ class FnTr:
             a, b = self.expr(e.left), self.expr(e.right)
             a, b = self.unify_num(a, b)
             sym = {ast.Add: '+', ast.Sub: '-', ast.Mult: '*'}[type(e.op)]
-            if a.typ == b.typ == 'R' or (a.typ == b.typ == 'Int' and sym == '*'):
+            if a.typ == b.typ == 'N' or a.typ == b.typ == 'R' or (a.typ == b.typ == 'Int' and sym == '*'):
                 return Val(f'({a.text} {sym} {b.text})', a.typ)
             if sym == '+' and a.typ == b.typ and a.typ.startswith('List '):
                 return Val(f'({a.text} ++ {b.text})', a.typ)
@@ -1005,6 +1005,12 @@ class FnTr:
             r = self.apply(inst, [b, a])
             return r if isinstance(op, ast.In) else Val(f'(!{r.text})', 'Bool')
         a, b = self.unify_num(a, b)
+        if a.typ == b.typ == 'N':
+            t = {ast.Lt: '(Num.lt {0} {1})', ast.LtE: '(Num.le {0} {1})', ast.Gt: '(Num.lt {1} {0})',
+                 ast.GtE: '(Num.le {1} {0})'}.get(type(op))
+            if t is None:
+                raise Unsupported(f'comparison {type(op).__name__} on the numeric class')
+            return Val(t.format(_paren(a.text), _paren(b.text)), 'Bool')
         num = num + ('R',)
         if a.typ == b.typ == 'Bool' and isinstance(op, (ast.Eq, ast.NotEq)):
             return Val(f'({a.text} {"==" if isinstance(op, ast.Eq) else "!="} {b.text})', 'Bool')
@@ -1033,6 +1039,10 @@ class FnTr:
 
     def unify_num(self, a, b):
         """an int literal next to a float-modelled-as-rational operand is that rational"""
+        if a.typ == 'N' and b.typ == 'Int':
+            return a, Val(f'(Num.ofI {b.text})', 'N')
+        if a.typ == 'Int' and b.typ == 'N':
+            return Val(f'(Num.ofI {a.text})', 'N'), b
         if a.typ == 'R' and b.typ == 'Int':
             return a, Val(f'({b.text} : Rat)', 'R')
         if a.typ == 'Int' and b.typ == 'R':
@@ -1111,6 +1121,9 @@ class FnTr:
                 inst = self.u.find(f.id, tuple(a.typ for a in args))
                 return self.apply(inst, args)
             raise Unsupported(f'`{self.inst.qual}`: call of `{f.id}`')
+        if isinstance(f, ast.Attribute) and isinstance(f.value, ast.Name) and f.value.id not in self.env \
+                and f'{f.value.id}.{f.attr}' in self.u.intrinsics:
+            return self.u.intrinsics[f'{f.value.id}.{f.attr}'](self, [self.expr(a) for a in e.args])
         if isinstance(f, ast.Attribute):
             recv = self.expr(f.value)
             cls = self.u.class_of(recv.typ)
